@@ -257,6 +257,33 @@ pub fn gen_sym_world(rng: &mut Rng, idx: usize) -> SymWorld {
       }
     }
   }
+  // named re-exports that form a cycle, and a module importing a name from itself: go-to-definition
+  // has nothing to find there and must come back
+  if rng.chance(1, 4) {
+    let n = mods.len();
+    let i = rng.below(n);
+    let t = rng.below(n);
+    let name = format!("cyc{}", idx % 97);
+    if i != t {
+      mods[i].text.push_str(&format!("export {{ {} }} from \"./m{}.ts\";\n", name, t));
+      mods[t].text.push_str(&format!("export {{ {} }} from \"./m{}.ts\";\n", name, i));
+      mods[i].own.push(name.clone());
+      mods[t].own.push(name);
+    } else {
+      mods[i].text.push_str(&format!("import {{ {} }} from \"./m{}.ts\";\nexport {{ {} }};\n", name, i, name));
+      mods[i].own.push(name);
+    }
+  }
+  // a JSON module whose text begins and ends with white space
+  if rng.chance(1, 3) {
+    let n = mods.len();
+    let i = rng.below(n);
+    let lead = ["", "\n", "\n\n   ", " \t"][rng.below(4)];
+    let trail = ["", "\n", "  "][rng.below(3)];
+    mods[i].text.push_str(&format!("import data{} from \"./d{}.json\" with {{ type: \"json\" }};\nexport const viaJson{} = data{};\n", idx % 89, idx % 89, idx % 89, idx % 89));
+    mods[i].own.push(format!("viaJson{}", idx % 89));
+    mods.push(SymMod { url: format!("file:///d{}.json", idx % 89), text: format!("{}{{ \"k\": [1, 2], \"s\": \"v\" }}{}", lead, trail), own: vec!["default".into()], stars: vec![], ambient: vec![] });
+  }
   SymWorld { mods, alias_cycle }
 }
 
